@@ -31,7 +31,8 @@ FAMILIES = [
     # ---- C03
     (r"c03_f1a_", "F1a", "result of format_line_comment is in normal form", ["core/src/rules/comment_contents.rs: format_line_comment"]),
     (r"c03_f1b_", "F1b", "format_line_comment leaves a normal-form comment untouched (with F1a: f(f(x)) = f(x))", ["core/src/rules/comment_contents.rs: format_line_comment"]),
-    (r"c03_f2_", "F2", "format_compiler_directive applied twice = once", ["core/src/rules/comment_contents.rs: format_compiler_directive"]),
+    (r"c03_f2a_", "F2a", "after format_compiler_directive the directive name holds no lower-case letter (normal form)", ["core/src/rules/comment_contents.rs: format_compiler_directive"]),
+    (r"c03_f2b_", "F2b", "format_compiler_directive leaves a normal-form directive untouched (with F2a: f(f(x)) = f(x))", ["core/src/rules/comment_contents.rs: format_compiler_directive"]),
     (r"c03_f3_", "F3", "every keyword of the table, in any letter case, is recognised as the same kind as its lower-case form", [LEXER + ": get_word_token_type, KEYWORDS"]),
     (r"c03_f4_", "F4", "TokenSpacing::format applied to its own output changes nothing", ["core/src/rules/token_spacing.rs: TokenSpacing::format"]),
     (r"c03_f6_", "F6", "reconstruct_solution applied to its own result yields the same counters (blank-line clamp is a fixpoint)", [OLF + "/mod.rs: reconstruct_solution"]),
@@ -61,6 +62,8 @@ FAMILIES = [
     (r"c10_a3_len_equals", "A3b", "LineWhitespace::len == bytes reconstruct emits before the token", [OLF + "/types.rs: LineWhitespace::len", RECON]),
     (r"c10_a4_", "A4", "two-run: expanding leading tabs of reconstruct(use_tabs) gives reconstruct(spaces)", ["front-end/src/lib.rs: From<&FormattingConfig> for ReconstructionSettings", RECON]),
     # ---- C12
+    (r"c12_m1a_", "M1a", "lines_custom == reference line splitting (LF / CRLF / lone CR each end a line once)", [OLF + "/multiline_strings.rs: lines_custom"]),
+    (r"c12_m1c_", "M1c", "format_multiline_strings == reference on a concrete literal with symbolic target layout (counters, ignored flag, line ending per instance)", [OLF + "/multiline_strings.rs: format_multiline_strings, try_rewrite_string, lines_custom"]),
     (r"c12_m1_", "M1", "format_multiline_strings == reference (value preserved, terminators = configured, target indentation exact, non-conforming / ignored literals untouched)", [OLF + "/multiline_strings.rs: format_multiline_strings, try_rewrite_string, lines_custom"]),
     (r"c12_m5_", "M5", "two multi-line literals in one logical line are both re-indented in the same pass (each == reference)", [OLF + "/multiline_strings.rs: format_multiline_strings"]),
     (r"c12_m3_", "M3", "lexer: odd run of >= 3 quotes + line break opens a multi-line literal ending at the first same run, else Unterminated to EOF", [LEXER + ": text_literal"]),
@@ -90,29 +93,52 @@ QUICK = set("""
 c01_p1_lowercase_len3 c01_p2_line_comment_len3 c01_p2_line_comment_ideographic_space_last c01_p3_directive_brace_len4
 c01_p5_recon_tokB_soft c01_p5_recon_tokB_hard_ignored_ws2
 c02_h1_break_invariants_all_kind_pairs c02_h2_safety_net_soft c02_h2_safety_net_ignored_ws1 c02_h3_words_never_glued_pos1of3 c02_h3_words_never_glued_pos2of3 c02_h4_directive_kind_case_insensitive_len5
-c03_f1a_line_comment_result_normal_len3 c03_f1b_line_comment_normal_untouched_len4 c03_f2_directive_fixpoint_len3 c03_f3_keywords_any_case_len4 c03_f4_spacing_fixpoint_3kinds c03_f6_solution_fixpoint
+c03_f1a_line_comment_result_normal_len3 c03_f1b_line_comment_normal_untouched_len4 c03_f2a_directive_result_normal_len3 c03_f2b_directive_normal_untouched_name2 c03_f3_keywords_any_case_len4 c03_f4_spacing_fixpoint_3kinds c03_f6_solution_fixpoint
 c06_n2_spacing_noninterference_3kinds c06_n3_solution_overwrites_layout c06_n5_olf_tail_reads_counters_only
 c07_i1_toggle_brace_b1_w3 c07_i1_toggle_slashes_b0_w2 c07_i2_region_marking_3tokens c07_i3_mut_access_guard c07_i3_comment_rule_respects_flag c07_i4_emit_verbatim_ws1 c07_i5_asm_lines_marked
 c08_s1_spacing_zero_or_one_3kinds c08_s2_olf_zeroes_spaces_at_line_start c08_s3_apply_solution_counters c08_s4_eof_newline c08_r1_render_soft_w2_w4
 c09_q1_lf_vs_crlf_soft_w2_w4 c09_q3_counters_crlf_eq_lf_nnb
 c10_a1_settings_to_strings c10_a2_new_soft_w0_w3 c10_a2_new_soft_w2_w4 c10_a2_new_hard_w1_w2 c10_a2_new_hard_w5_w0 c10_a3_linewhitespace_len_arith c10_a3_len_equals_emitted_soft_w2_w4 c10_a3_len_equals_emitted_hard_w1_w3 c10_a4_tabs_vs_spaces_tw2_ci2
 c13_d1_dispatch_table_all_bytes c13_w1_blanks_sIs c13_w1_blanks_ssss c13_v2_scalar_ident_sIs c13_l1_colon_n2 c13_l1_slash_n3 c13_l1_digit_n3 c13_l1_dot_n2 c13_l1_langle_n2 c13_l1_simple_ops_n1 c13_l1_unknown_n1 c13_v1_avx2_eq_ref_len33_off1
+c12_m1c_lf_basic c12_m1c_cr_only c12_m1c_short_nonblank_line c12_m1c_ignored_untouched
+c15_a_attach_list1_c3 c15_a_attach_list3_c8 c15_a_attach_list4_c9 c15_a_attach_list2_c4 c15_b_relocate_list1_c1 c15_b_relocate_list1_c3 c15_b_relocate_list1_c5 c15_b_relocate_list2_c4 c15_b_relocate_list3_c8 c15_b_relocate_list4_c9 c15_b_relocate_list1_ignored_c3 c15_b_relocate_list1_cmax c15_b_relocate_rewritten_literal_c4 c15_b_relocate_rewritten_literal_c9
+c04_cursor_nocontract_list1_c3 c04_cursor_nocontract_list5_c3 c04_cursor_nocontract_list4_c8 c04_cursor_nocontract_list6_c4 c04_cursor_nocontract_list1_cmax
 c17_u0_bom_sniffing c17_u1_utf16le_1scalar c17_u1_utf16be_1scalar c17_u3_write_utf8_len3
 """.split())
 
+# Harness families that exist in the sources but are NOT registered as obligations: they were
+# measured to exceed the memory available to CBMC (documented in DESIGN.md section 2.3); keeping
+# the code keeps the measurement reproducible (`./kj.sh <feature> <mod::name>`).
+EXCLUDED = [
+    (r"c12_m1_", "format_multiline_strings on symbolic literal bytes: std's char/str iterators over symbolic bytes run out of memory even at 10 bytes; replaced by M1c (concrete literals, symbolic layout)"),
+    (r"c12_m1a_", "lines_custom on 5 symbolic bytes: 411 s of symbolic execution, then out of memory at 10 GB"),
+    (r"c14_g4_", "one pass of the recursive-descent parser on 1-2 symbolic-kind tokens: > 15 min / 9 GB without a verdict"),
+    (r"c14_g1_", "DirectiveTree passes on 2-3 symbolic kinds: recursion x loop unwinding and symbolic-size Vec growth: out of memory at 10 GB"),
+]
+
 # obligations shared between properties: (property, harness regex)
 SHARED = [
-    ("C01", r"c12_m1_"),          # P4: multi-line string rewriting preserves the non-blank sequence
+    ("C01", r"c12_m1c_"),         # P4: multi-line string rewriting preserves the non-blank sequence
     ("C02", r"c03_f3_"),          # H4: lower-cased keywords keep their kind
-    ("C03", r"c12_m1_one_line_lf$"), ("C03", r"c12_m5_"),
+    ("C03", r"c12_m1c_lf_basic$"), ("C03", r"c12_m5_"),
     ("C08", r"c03_f1a_"),         # line comments end up without trailing ASCII whitespace
-    ("C09", r"c12_m1_"),          # Q2: interior terminators of re-indented literals = configured one
+    ("C09", r"c12_m1c_"),         # Q2: interior terminators of re-indented literals = configured one
     ("C13", r"c03_f3_"),          # K1: keyword recognition
     ("C13", r"c12_m3_"),          # T2: multi-line literal opener / terminator
     # C04: every harness checks panics / overflow / unwinding; these run on unrestricted inputs
-    ("C04", r"c13_l1_"), ("C04", r"c13_w1_"), ("C04", r"c14_g1_"), ("C04", r"c12_m1_"), ("C04", r"c12_m3_"),
+    ("C04", r"c13_l1_"), ("C04", r"c13_w1_"), ("C04", r"c14_g1_"), ("C04", r"c12_m1c_"), ("C04", r"c12_m3_"), ("C04", r"c15_b_relocate_rewritten"),
     ("C04", r"c01_p2_"), ("C04", r"c01_p3_"), ("C04", r"c07_i1_"), ("C04", r"c17_u1_"),
 ]
+
+SMT = {"C13": [{"module": "smt.avx2_lane", "tier": "quick"}]}
+
+# shared obligations that also run in the borrowing property's quick tier
+SHARED_QUICK = {
+    ("C01", "c12_m1c_short_nonblank_line"), ("C02", "c03_f3_keywords_any_case_len4"), ("C03", "c12_m1c_lf_basic"),
+    ("C08", "c03_f1a_line_comment_result_normal_len3"), ("C09", "c12_m1c_cr_only"), ("C13", "c03_f3_keywords_any_case_len4"),
+    ("C04", "c13_l1_digit_n3"), ("C04", "c13_l1_slash_n3"), ("C04", "c01_p2_line_comment_len3"), ("C04", "c07_i1_toggle_brace_b1_w3"),
+    ("C04", "c15_b_relocate_rewritten_literal_c4"), ("C04", "c12_m1c_short_nonblank_line"),
+}
 
 PROPERTY_META = {
     "C10": {
@@ -146,6 +172,8 @@ def build(hcrate=None):
     props = {}
     unmatched = []
     for mod, name in harness_names(hcrate):
+        if any(re.match(rx, name) for rx, _ in EXCLUDED):
+            continue
         fam = next((f for f in FAMILIES if re.match(f[0], name)), None)
         if fam is None:
             unmatched.append(name)
@@ -164,11 +192,13 @@ def build(hcrate=None):
             if re.match(rx, o["harness"].split("::")[1]) and not any(x["harness"] == o["harness"] for x in props.get(pid, [])):
                 o2 = dict(o)
                 o2["id"] = "shared:" + o["id"]
+                if (pid, o["harness"].split("::")[1]) not in SHARED_QUICK:
+                    o2["tier"] = "thorough"
                 props.setdefault(pid, []).append(o2)
     out = {}
     for pid, obs in sorted(props.items()):
         meta = PROPERTY_META.get(pid, {})
-        out[pid] = {"obligations": obs, "explanation": meta.get("explanation", ""), "outside": meta.get("outside", []),
+        out[pid] = {"obligations": obs, "smt": SMT.get(pid, []), "explanation": meta.get("explanation", ""), "outside": meta.get("outside", []),
                     "assumptions": meta.get("assumptions", []), "contracts": meta.get("contracts", [])}
     return out, unmatched
 
